@@ -54,17 +54,28 @@ typedef struct T {
     pstm_int *pa, *pb, *pc;
     int rc;
     int nbad;
+    pstm_int *dirty;       /* result object left with non-zero digits above `used` */
 } T;
 
 static const char *g_variant = "asan";
 static int g_single;       /* replaying one case: verbose */
 static mpz_t ZA, ZB, ZC, ZE, ZE2, ZT, ZT2, ZG;
 
-/* shared between the shard parent and its forked batch children */
-typedef struct { volatile long cur; char spec[160]; volatile unsigned long dn; } shared_t;
+/* State shared (MAP_SHARED) between the shard parent and its forked batch children, so that
+ * counters and distinct-case hashes survive a child that is killed by a sanitizer report. */
+#define NSTAT 200
+typedef struct { volatile long cur; char spec[160]; volatile unsigned long dn; int nstat; struct { char k[64]; long v; } st[NSTAT]; } shared_t;
 static shared_t *SH;
 static uint64_t *DSET;
 #define DCAP (1UL << 21)
+
+static void stat_add(const char *k, long v)
+{
+    int i;
+    for (i = 0; i < SH->nstat; i++) if (!strcmp(SH->st[i].k, k)) { SH->st[i].v += v; return; }
+    if (SH->nstat < NSTAT) { snprintf(SH->st[SH->nstat].k, 64, "%s", k); SH->st[SH->nstat].v = v; SH->nstat++; }
+}
+static void stat_addf(long v, const char *fmt, ...) { char k[64]; va_list ap; va_start(ap, fmt); vsnprintf(k, sizeof k, fmt, ap); va_end(ap); stat_add(k, v); }
 
 static void distinct(const char *fmt, ...)
 {
@@ -74,7 +85,13 @@ static void distinct(const char *fmt, ...)
     size_t i = h & (DCAP - 1);
     while (DSET[i]) { if (DSET[i] == h) return; i = (i + 1) & (DCAP - 1); }
     if (SH->dn < DCAP / 2) { DSET[i] = h; SH->dn++; }
-    vf_distinct_h(h);
+}
+/* parent, once: hand the accumulated counters and hashes to the vf.h protocol */
+static void publish(void)
+{
+    int i; size_t j;
+    for (i = 0; i < SH->nstat; i++) vf_stat(SH->st[i].k, SH->st[i].v);
+    for (j = 0; j < DCAP; j++) if (DSET[j]) vf_distinct_h(DSET[j]);
 }
 
 static int szclass(int n)
@@ -201,7 +218,7 @@ static void report(T *t, const char *cls, const char *what, const mpz_t got, con
     int i;
     snprintf(key, sizeof key, "c13:%s:%s", t->fn, cls);
     t->nbad++;
-    vf_stat("violations_total", 1);
+    stat_add("violations_total", 1);
     for (i = 0; i < g_nvk; i++) if (!strcmp(g_vk[i].key, key)) break;
     if (i == g_nvk && g_nvk < 64) { snprintf(g_vk[g_nvk].key, 96, "%s", key); g_vk[g_nvk].n = 0; g_nvk++; }
     if (i < 64 && g_vk[i].n++ >= 3 && !g_single) return;
@@ -221,8 +238,27 @@ static int check_inv(T *t, const char *what, const pstm_int *o, const mpz_t exp)
     if (o->dp == NULL || o->used > o->alloc) { report(t, "invariant-used-gt-alloc", what, NULL, exp); return 2; }
     if (o->used > 0 && o->dp[o->used - 1] == 0) { obj_to_mpz(ZG, o); report(t, "invariant-unclamped", what, ZG, exp); bad = 1; }
     if (o->used == 0 && o->sign != PSTM_ZPOS) { obj_to_mpz(ZG, o); report(t, "invariant-negative-zero", what, ZG, exp); bad = 1; }
-    for (i = o->used; i < o->alloc; i++) if (o->dp[i]) { vf_statf(1, "soft_dirty_high_%s", t->fn); break; }
+    for (i = o->used; i < o->alloc; i++) if (o->dp[i]) { t->dirty = (pstm_int *) o; stat_addf(1, "soft_dirty_high_%s", t->fn); break; }
     return bad;
+}
+/* A result whose digits above `used` are not zero has the right value only until the next
+ * operation: pstm code (s_pstm_add with c == a, pstm_cmp_d, ...) relies on those digits being
+ * zero.  Made concrete here: result = result + k through the public API must still be exact. */
+static void followup_dirty(T *t)
+{
+    pstm_int *o = t->dirty, k;
+    if (!o || o->alloc < 1 || o->alloc >= PSTM_MAX_SIZE) return;
+    t->dirty = NULL;
+    obj_to_mpz(ZT, o);
+    if (pstm_init_size(NULL, &k, o->alloc) != PSTM_OKAY) return;
+    k.dp[o->alloc - 1] = 1; k.used = o->alloc; k.sign = o->used ? o->sign : PSTM_ZPOS;   /* same sign: pure magnitude addition */
+    obj_to_mpz(ZT2, &k);
+    mpz_add(ZT, ZT, ZT2);
+    if (pstm_add(o, &k, o) == PSTM_OKAY && o->used <= o->alloc) {
+        obj_to_mpz(ZG, o);
+        if (mpz_cmp(ZG, ZT) != 0) report(t, "stale-high-digits", "pstm_add(result, 2^(64*(alloc-1)), result) after the call", ZG, ZT);
+    }
+    pstm_clear(&k);
 }
 /* invariants + value of one result object. returns 0 when fine */
 static int check_obj(T *t, const char *what, const pstm_int *o, const mpz_t exp, int magnitude_only)
@@ -248,9 +284,9 @@ static void check_int(T *t, const char *what, long got, long exp)
 static int called(T *t, int rc)
 {
     t->rc = rc;
-    vf_stat("cases", 1);
-    vf_statf(1, "op_%s", t->fn);
-    if (rc < 0) { vf_statf(1, "err_%s", t->fn); return 0; }
+    stat_add("cases", 1);
+    stat_addf(1, "op_%s", t->fn);
+    if (rc < 0) { stat_addf(1, "err_%s", t->fn); return 0; }
     return 1;
 }
 
@@ -626,7 +662,7 @@ static void op_exptmod(T *t)
     case 7: { int xd = 1 + (int) (snext(t) % 4); val_t *x = &t->vb; gen_val(t, x, xd, K_DENSE, 0); val_to_mpz(ZB, x); break; } /* short (DH-like) */
     default: { val_t *x = &t->vb; gen_val(t, x, n, K_DENSE, 0); val_to_mpz(ZB, x); mpz_mod(ZB, ZB, ZC); if (mpz_sgn(ZB) == 0) mpz_set_ui(ZB, 5); break; }
     }
-    mpz_to_val(&t->vb, ZB, K_DENSE); t->kb = xk;
+    mpz_to_val(&t->vb, ZB, K_DENSE); t->kb = K_DENSE;
     /* base */
     gk = (int) (snext(t) % 10);
     switch (gk) {
@@ -641,7 +677,7 @@ static void op_exptmod(T *t)
               mpz_mod(ZA, ZA, ZT); mpz_add(ZA, ZA, ZC); break; }                                           /* p <= g < 2^bits: same digit count, not reduced */
     default: { val_t *g = &t->va; gen_val(t, g, n, K_DENSE, 0); val_to_mpz(ZA, g); mpz_mod(ZA, ZA, ZC); break; }
     }
-    mpz_to_val(&t->va, ZA, K_DENSE); t->ka = gk;
+    mpz_to_val(&t->va, ZA, K_DENSE); t->ka = K_DENSE;
     t->alias = (snext(t) % 3 == 0) ? AL_CA : AL_NONE;
     t->stale = (int) (snext(t) & 3);
     /* the stale output may be shorter or longer than p; callers allocate 2*|p|+1 */
@@ -649,7 +685,11 @@ static void op_exptmod(T *t)
     mkobj(&t->ob, &t->vb, pick_extra(t)); t->has_b = 1; t->pb = &t->ob;
     mkobj(&op, vp, pick_extra(t));
     if (t->alias == AL_CA) t->pc = t->pa; else { mkstale(t, &t->oc, t->stale, n); t->has_c = 1; t->pc = &t->oc; }
-    snprintf(t->extra, sizeof t->extra, "pbits=%d xkind=%d gkind=%d%s", 64 * n, xk, gk, even ? " even-modulus" : "");
+    {
+        static const char *xn[] = { "1", "2", "3", "65537", "2^k", "2^k-1", "p-1", "short", "random<p", "random<p" };
+        static const char *gn[] = { "0", "1", "2", "p-1", "longer-than-p", "shorter", "g==p", "p<=g<2^bits", "random<p", "random<p" };
+        snprintf(t->extra, sizeof t->extra, "pbits=%d x=%s g=%s%s", 64 * n, xn[xk], gn[gk], even ? " even-modulus" : "");
+    }
     if (!even) mpz_powm(ZE, ZA, ZB, ZC);
     i = pstm_exptmod(NULL, t->pa, t->pb, &op, t->pc);
     if (called(t, i)) {
@@ -675,7 +715,8 @@ static void op_invmod(T *t)
     regime = (int) (snext(t) % 8);                  /* 0..5 reduced, 6 unreduced, 7 negative */
     gen_val(t, &t->va, t->la, t->ka, regime == 7);
     val_to_mpz(ZA, &t->va); val_to_mpz(ZB, &t->vb);
-    if (regime < 6 && mpz_cmpabs(ZA, ZB) >= 0) { mpz_mod(ZA, ZA, ZB); mpz_to_val(&t->va, ZA, t->ka); }
+    if (regime == 5) { mpz_set_ui(ZA, 1); mpz_mul_2exp(ZA, ZA, 64UL * t->vb.used); mpz_mod(ZA, ZA, ZB); t->ka = K_SPECIAL; mpz_to_val(&t->va, ZA, t->ka); }  /* R mod b */
+    else if (regime < 6 && mpz_cmpabs(ZA, ZB) >= 0) { mpz_mod(ZA, ZA, ZB); mpz_to_val(&t->va, ZA, t->ka); }
     t->alias = (snext(t) % 3 == 0) ? AL_CA : AL_NONE;
     t->stale = (int) (snext(t) & 3);
     mkobj(&t->oa, &t->va, pick_extra(t)); t->has_a = 1; t->pa = &t->oa;
@@ -687,13 +728,23 @@ static void op_invmod(T *t)
     snprintf(t->extra, sizeof t->extra, "%s modulus, a %s, inverse %s", (t->vb.d[0] & 1) ? "odd" : "even", strict ? "reduced" : mpz_sgn(ZA) < 0 ? "negative" : "unreduced", have_inv ? "exists" : "does not exist");
     if (called(t, pstm_invmod(NULL, t->pa, t->pb, t->pc))) {
         if (!have_inv) { if (t->pc->used <= t->pc->alloc) obj_to_mpz(ZG, t->pc); report(t, "success-without-inverse", "result", ZG, NULL); }
-        else if (strict) { if (!check_obj(t, "result", t->pc, ZE, 0)) sample(t, ZE); }
+        else if (strict) {
+            if (check_inv(t, "result", t->pc, ZE) != 2) {
+                obj_to_mpz(ZG, t->pc);
+                if (mpz_cmp(ZG, ZE) == 0) sample(t, ZE);
+                else {
+                    /* congruent but outside 0..b-1, or not an inverse at all */
+                    mpz_mul(ZT, ZG, ZA); mpz_sub_ui(ZT, ZT, 1); mpz_mod(ZT, ZT, ZB); mpz_set(ZT2, ZG);
+                    report(t, mpz_sgn(ZT) == 0 ? "unreduced-result" : "wrong-value", "result", ZT2, ZE);
+                }
+            }
+        }
         else if (check_inv(t, "result", t->pc, ZE) != 2) {
             /* outside the reduced range only a*c == 1 (mod b) is demanded */
             obj_to_mpz(ZG, t->pc);
             mpz_mul(ZT, ZG, ZA); mpz_sub_ui(ZT, ZT, 1); mpz_mod(ZT, ZT, ZB);
             if (mpz_sgn(ZT) != 0) { mpz_set(ZT2, ZG); report(t, "wrong-value", "result (not an inverse)", ZT2, ZE); }
-            else { if (mpz_cmp(ZG, ZE) != 0) vf_stat("soft_invmod_noncanonical", 1); sample(t, ZE); }
+            else { if (mpz_cmp(ZG, ZE) != 0) stat_add("soft_invmod_noncanonical", 1); sample(t, ZE); }
         }
         inputs_unchanged(t);
     }
@@ -963,7 +1014,7 @@ static void op_mont_reduce(T *t)
     case 4: case 5: { val_t *x = &t->va; gen_val(t, x, n, pick_kind(t), 0); val_to_mpz(ZA, x); mpz_mod(ZA, ZA, ZB); gen_val(t, x, n, pick_kind(t), 0); val_to_mpz(ZE2, x); mpz_mod(ZE2, ZE2, ZB); mpz_mul(ZA, ZA, ZE2); break; } /* product of residues */
     default: { val_t *x = &t->va; gen_val(t, x, 2 * n, pick_kind(t), 0); val_to_mpz(ZA, x); mpz_mod(ZA, ZA, ZT2); break; }
     }
-    mpz_to_val(&t->va, ZA, K_DENSE); t->ka = ak;
+    mpz_to_val(&t->va, ZA, K_DENSE); t->ka = K_DENSE;
     mkobj(&t->oa, &t->va, 2 * n + 1 - t->va.used + (int) (snext(t) % 3)); t->has_a = 1; t->pa = t->pc = &t->oa; t->alias = AL_CA;
     mkobj(&t->ob, &t->vb, pick_extra(t)); t->has_b = 1; t->pb = &t->ob;
     pstm_digit *pad = mkpad(t, 2 * n + 1, &plen, &pmode);
@@ -1028,6 +1079,7 @@ static void run_case(int opid, long j)
     vf_rng_init(&t->rv, vf_seed, ((uint64_t) (opid + 1) << 44) ^ (uint64_t) j);
     mpz_set_ui(ZA, 0); mpz_set_ui(ZB, 0); mpz_set_ui(ZC, 0);
     OPS[opid].fn(t);
+    if (t->dirty && (t->dirty == &t->oa || t->dirty == &t->ob || t->dirty == &t->oc || t->dirty == &t->od)) followup_dirty(t);
     if (g_single) {
         gmp_fprintf(stderr, "case op=%s j=%ld seed=%llu variant=%s fn=%s rc=%d %s\n  digits a=%d b=%d c=%d kinds=%s,%s,%s alias=%s stale=%s\n  a=%Zx\n  b=%Zx\n  c=%Zx\n  expected=%Zx\n  violations in this case: %d\n",
                     t->op, j, (unsigned long long) vf_seed, g_variant, t->fn, t->rc, t->extra, t->va.used, t->vb.used, t->vc.used,
@@ -1040,12 +1092,11 @@ static void run_case(int opid, long j)
 typedef struct { int op; long j0, j1; } batch_t;
 static void run_batch(void *arg)
 {
-    batch_t *b = arg; long j, n = 0;
+    batch_t *b = arg; long j;
     for (j = b->j0; j < b->j1; j++) {
         SH->cur = j;
         snprintf(SH->spec, sizeof SH->spec, "op=%s,j=%ld,seed=%llu,v=%s", OPS[b->op].name, j, (unsigned long long) vf_seed, g_variant);
         run_case(b->op, j);
-        if (++n % 8192 == 0) vf_flush();
     }
 }
 
@@ -1059,10 +1110,11 @@ static long scaled(const opdef *o, long mult)
 int main(int argc, char **argv)
 {
     int i, crashes[64] = { 0 };
-    long mult, bi = 0;
+    long mult, bi = 0, crash_budget;
     vf_init(argc, argv);
     g_variant = vf_arg("--variant", "asan");
     mult = vf_argl("--mult", 1);
+    crash_budget = vf_argl("--crash-budget", 2000 * mult);    /* per op and shard; bounds the fork-resume work */
     if (psCryptoOpen(PSCRYPTO_CONFIG) < 0) { vf_incon("psCryptoOpen failed"); vf_flush(); return 2; }
     mpz_inits(ZA, ZB, ZC, ZE, ZE2, ZT, ZT2, ZG, NULL);
     SH = mmap(NULL, sizeof *SH, PROT_READ | PROT_WRITE, MAP_SHARED | MAP_ANONYMOUS, -1, 0);
@@ -1082,6 +1134,7 @@ int main(int argc, char **argv)
         batch_t b = { i, j, j + 1 };
         snprintf(SH->spec, sizeof SH->spec, "%s", vf_case);
         vf_fork_case(run_batch, &b, OPS[i].name, SH->spec, 600);
+        publish();
         vf_flush();
         return 0;
     }
@@ -1098,12 +1151,13 @@ int main(int argc, char **argv)
                 int rc = vf_fork_case(run_batch, &b, OPS[i].name, SH->spec, vf_thorough ? 1800 : 300);
                 if (rc == 0) break;
                 /* the child died in case SH->cur: recorded with its exact spec; go on behind it */
-                vf_statf(1, "aborted_%s", OPS[i].name);
+                stat_addf(1, "aborted_%s", OPS[i].name);
                 from = SH->cur + 1;
-                if (++crashes[i] >= 48) { vf_statf(to - from, "skipped_after_crashes_%s", OPS[i].name); break; }
+                if (++crashes[i] >= crash_budget) { stat_addf(to - from, "skipped_after_crashes_%s", OPS[i].name); break; }
             }
         }
     }
+    publish();
     vf_flush();
     return 0;
 }
